@@ -144,6 +144,12 @@ type streamArgs struct {
 	Chunk   int     `json:"chunk"`   // largest write
 	Bridged bool    `json:"bridged"` // both ends behind BridgeConns + a Unix socket pair
 	AltPath bool    `json:"alt_path"` // a second, dearer path; the first link of the cheap path is cut during the transfer
+	// the dial's context is cancelled as soon as the connection is established (a dial helper with `defer cancel()`):
+	// the stream must go on
+	DialCtxCancel bool `json:"dial_ctx_cancel"`
+	// before the transfer a first stream to the same listener is opened, used briefly, and ended by the accepting side
+	// with CloseConnection: the listener and later streams must be unaffected
+	Sibling bool    `json:"sibling"`
 	CutMode string  `json:"cut_mode"` // "" the cut link swallows datagrams (noticed by the idle time-out); "reset": both ends get errors at once
 	Seed    int64   `json:"seed"`
 	// duplex: both sides write and close their writing side on their own.
@@ -319,6 +325,35 @@ func streamApply(op string, raw json.RawMessage) interface{} {
 		go utils.BridgeConns(inner, "socket "+tag, c, "mesh "+tag, nA.Logger)
 		return app.(*net.UnixConn), nil
 	}
+	if a.Sibling {
+		accepted := make(chan net.Conn, 1)
+		go func() {
+			c, err := li.Accept()
+			if err == nil {
+				accepted <- c
+			}
+		}()
+		sctx, scancel := context.WithTimeout(ctx, 20*time.Second)
+		c0, err := nA.DialContext(sctx, "nB", "strm", nil)
+		scancel()
+		if err != nil {
+			return map[string]interface{}{"error": "sibling dial: " + err.Error()}
+		}
+		_, _ = c0.Write([]byte("hello"))
+		select {
+		case s0 := <-accepted:
+			buf := make([]byte, 5)
+			_, _ = io.ReadFull(s0, buf)
+			// the accepting side ends this connection as a whole
+			if cc, ok := s0.(interface{ CloseConnection() error }); ok {
+				_ = cc.CloseConnection()
+			}
+		case <-time.After(20 * time.Second):
+			return map[string]interface{}{"error": "sibling stream was not accepted"}
+		}
+		_ = c0.Close()
+		time.Sleep(50 * time.Millisecond)
+	}
 	wg.Add(1)
 	go func() {
 		defer wg.Done()
@@ -340,7 +375,15 @@ func streamApply(op string, raw json.RawMessage) interface{} {
 	if err != nil {
 		_ = li.Close()
 		wg.Wait()
+		if a.Sibling {
+			// an earlier stream to this listener was ended by the accepting side: a new one must still be possible
+			return map[string]interface{}{"a_got": 0, "a_bad": -1, "a_eof": false, "a_werr": "dial after a sibling stream was ended: " + err.Error(),
+				"b_got": 0, "b_bad": -1, "b_eof": false, "b_werr": "", "nontrivial": true}
+		}
 		return map[string]interface{}{"error": "dial: " + err.Error()}
+	}
+	if a.DialCtxCancel {
+		dcancel()
 	}
 	if a.AltPath {
 		go func() {
@@ -416,6 +459,12 @@ func streamGen(v *verifRun) {
 					a.Hops = 1
 				}
 			}
+		}
+		switch v.rng.Intn(6) {
+		case 0:
+			a.DialCtxCancel = true
+		case 1:
+			a.Sibling = true
 		}
 		v.do(streamApply, "transfer", a)
 	}
